@@ -86,6 +86,9 @@ def resolve(classes, ref):
             return type("Variant", (base,), {"signature": (ref[2], ref[3])})
         if ref[0] == "sigsame":      # a laboratory's variant that keeps the name of the kit type it derives from
             return type(base.__name__, (base,), {"signature": (ref[2], ref[3])})
+        if ref[0] == "cut":          # the same type over another enzyme (only the cutter is redefined)
+            import asm
+            return type("Variant", (base,), {"cutter": asm.enzyme(ref[2])})
         return type("Dyn" + base.__name__, (base,), {})
     return classes[ref]
 
@@ -159,6 +162,8 @@ def check_case(ctx, case):
             def nm(x):
                 if isinstance(x, list) and x[0] in ("sig", "sigsame"):
                     return "part type 'Variant' {}/{} derived from {}".format(x[2], x[3], classes[x[1]].__name__)
+                if isinstance(x, list) and x[0] == "cut":
+                    return "type 'Variant' derived from {} with cutter {}".format(classes[x[1]].__name__, x[2])
                 return ("new subclass of " + classes[x[1]].__name__) if isinstance(x, list) else classes[x].__name__
             ctx.fail("after validating with {}, {} answers {} on a {} record for which a fresh interpreter answers {}".format(
                 [(nm(h[0]), h[2]) for h in hist[:i]] or "nothing", nm(ref), g[:2],
@@ -170,7 +175,7 @@ def check_case(ctx, case):
     # model: one class table per history (dynamic subclasses share their base's structure)
     table, idx = [], []
     for ref in refs:
-        if isinstance(ref, list) and ref[0] in ("sig", "sigsame"):
+        if isinstance(ref, list) and ref[0] in ("sig", "sigsame", "cut"):
             cls = resolve(classes, ref)
         else:
             cls = classes[ref[1]] if isinstance(ref, list) else classes[ref]
@@ -236,6 +241,27 @@ def run(ctx):
         inst, _ = gen.instantiate(rng, resolve(classes, ref).structure(), runlen=3)
         ctx.guard(check_case, {"history": [[a, words[a]], [ref, gen.rot(inst + gen.rnd(rng, 5), rng.randrange(6))],
                                            [ref, words[a]]]})
+    # an ancestor is asked, then a brand-new subclass of a descendant that was never asked itself; and a type is
+    # asked, then a variant of it that redefines only the cutter, about a record of the variant's own structure
+    strict = [(a, b) for a, b in related if classes[b] is not classes[a] and issubclass(classes[b], classes[a])]
+    derived_s = [i for i, c in enumerate(classes)
+                 if getattr(c.structure, "__func__", None) in (boot.AbstractPart.structure.__func__,
+                                                               boot.AbstractModule.structure.__func__,
+                                                               boot.AbstractVector.structure.__func__)]
+    for _ in range(ctx.budget(60, 1200)):
+        if strict:
+            a, b = rng.choice(strict)
+            ctx.guard(check_case, {"history": [[a, words[a]], [["sub", b], words[rng.choice([a, b])]]]})
+        if derived_s:
+            a = rng.choice(derived_s)
+            others = [e for e in ("BsaI", "BsmBI", "BpiI", "SapI", "AarI") if e != str(classes[a].cutter)]
+            ref = ["cut", a, rng.choice(others)]
+            try:
+                inst, _ = gen.instantiate(rng, resolve(classes, ref).structure(), runlen=rng.choice([2, 5]))
+            except Exception:  # noqa
+                continue
+            w = gen.rot(inst + gen.rnd(rng, 6), rng.randrange(8))
+            ctx.guard(check_case, {"history": [[a, words[a]], [ref, w], [ref, words[a]]]})
     # records that match the structure but carry a third site of the cutter: refused, and refused again
     import typing_h as T
     for _ in range(ctx.budget(60, 1000)):
